@@ -55,6 +55,31 @@ fn label_of(scheme: u64, l: L) -> String {
     }
 }
 
+/// usize labels of the ICCMA'23 answer writer: with a non-zero scheme the first labels are the
+/// widest values a usize holds (20 decimal digits on 64-bit targets; S14i)
+const WIDE: [usize; 12] = [
+    usize::MAX,
+    usize::MAX - 1,
+    10_000_000_000_000_000_000,
+    9_999_999_999_999_999_999,
+    1 << 63,
+    (1 << 63) - 1,
+    12_345_678_901_234_567_890,
+    1_000_000_000_000_000_000,
+    4_294_967_296,
+    4_294_967_295,
+    10_000_000_000_000_000_001,
+    18_000_000_000_000_000_000,
+];
+
+fn ulabel_of(scheme: u64, l: L) -> usize {
+    if scheme == 0 || (l as usize) >= WIDE.len() {
+        usize_label(l)
+    } else {
+        WIDE[(l as usize + scheme as usize) % WIDE.len()]
+    }
+}
+
 pub struct C14;
 
 fn build<T: crustabri::utils::LabelType>(case: &C14Case, mk: &dyn Fn(L) -> T) -> (AAFramework<T>, RefStore) {
@@ -87,7 +112,7 @@ fn do_write(op: WOp, afs: &AAFramework<String>, afu: &AAFramework<usize>, ext: &
             ResponseWriter::<String>::write_single_extension(&AspartixWriter, w, &e).map_err(|e| e.to_string())
         }
         WOp::ExtIccma => {
-            let e: Vec<&Argument<usize>> = ext.iter().map(|l| afu.argument_set().get_argument(&usize_label(*l)).unwrap()).collect();
+            let e: Vec<&Argument<usize>> = ext.iter().map(|l| afu.argument_set().get_argument(&ulabel_of(scheme, *l)).unwrap()).collect();
             Iccma23Writer.write_single_extension(w, &e).map_err(|e| e.to_string())
         }
         WOp::Status(true, b) => Iccma23Writer.write_acceptance_status(w, b).map_err(|e| e.to_string()),
@@ -223,7 +248,7 @@ impl Property for C14 {
         let mut r = RunResult::default();
         let scheme = case.label_scheme;
         let (afs, store) = build(&case, &|l| label_of(scheme, l));
-        let (afu, _) = build(&case, &usize_label);
+        let (afu, _) = build(&case, &|l| ulabel_of(scheme, l));
         case.ext.retain(|l| store.live.contains_key(l));
         let mut seen = vec![];
         case.ext.retain(|l| {
@@ -290,7 +315,7 @@ impl Property for C14 {
                 }
                 WOp::ExtApx | WOp::ExtIccma => {
                     let parsed = if *op == WOp::ExtApx { parse_apx_ext(&out) } else { parse_iccma_ext(&out) };
-                    let exp: Vec<String> = case.ext.iter().map(|l| if *op == WOp::ExtApx { label_of(scheme, *l) } else { usize_label(*l).to_string() }).collect();
+                    let exp: Vec<String> = case.ext.iter().map(|l| if *op == WOp::ExtApx { label_of(scheme, *l) } else { ulabel_of(scheme, *l).to_string() }).collect();
                     match parsed {
                         None => Some(format!("extension line {:?} does not follow the answer grammar", shown)),
                         Some(mut p) => {
@@ -475,7 +500,7 @@ impl Property for C14 {
         out.into_iter().map(|c| serde_json::to_value(c).unwrap()).collect()
     }
     fn rule(&self) -> String {
-        "case = a framework produced by an update history (so removed arguments/attacks exist) over String labels that are valid Aspartix identifiers (`a<k>`, or in a third of the runs NESTED identifiers: prefixes and suffixes of one another, differing in case only; and the same history over usize labels for the ICCMA'23 writer), an extension (incl. empty, any order), a status. Fault-free: write_framework -> bytes must be a well-formed Aspartix file by the reference parser and read back (through a chunked, EINTR-injecting stream) to the same labels in the same order and the same attack set; extension lines must follow the answer grammars (`w( l)*\\n`, `[l(,l)*]\\n`) and carry exactly the written labels; statuses are exactly YES\\n / NO\\n. FAULT ENUMERATION per write operation: hard write error at EVERY byte offset, zero-length write at every third offset, failing flush, seeded short writes with EINTR: Err (never Ok) when the sink failed, no panic, emitted bytes are a prefix of the fault-free output; short writes/EINTR are transparent. Non-trivial = history created >= 2 arguments; distinct = distinct (history, extension)".into()
+        "case = a framework produced by an update history (so removed arguments/attacks exist) over String labels that are valid Aspartix identifiers (`a<k>`, or in a third of the runs NESTED identifiers: prefixes and suffixes of one another, differing in case only; and the same history over usize labels for the ICCMA'23 writer, in those runs the widest usize values: 2^64-1, 10^19, 2^63 ...), an extension (incl. empty, any order), a status. Fault-free: write_framework -> bytes must be a well-formed Aspartix file by the reference parser and read back (through a chunked, EINTR-injecting stream) to the same labels in the same order and the same attack set; extension lines must follow the answer grammars (`w( l)*\\n`, `[l(,l)*]\\n`) and carry exactly the written labels; statuses are exactly YES\\n / NO\\n. FAULT ENUMERATION per write operation: hard write error at EVERY byte offset, zero-length write at every third offset, failing flush, seeded short writes with EINTR: Err (never Ok) when the sink failed, no panic, emitted bytes are a prefix of the fault-free output; short writes/EINTR are transparent. Non-trivial = history created >= 2 arguments; distinct = distinct (history, extension)".into()
     }
     fn assumptions(&self) -> Vec<String> {
         vec!["RefApx and the two answer grammars are written independently of the writers".into(), "labels are valid Aspartix identifiers (a<k>), as the property restricts".into()]
